@@ -178,8 +178,27 @@ func genWLs(t *rapid.T, hp *HistoryParams, topo Topo) ([]WL, []PoolObj) {
 
 // genRanges draws k pairwise-disjoint range lists over (mostly) configured addresses.
 func genRanges(t *rapid.T, topo Topo, k int) [][]string {
-	var spans [][2]uint32
+	return genRangesFrom(t, topo.Pools, k)
+}
+
+// genRangesRoutable draws the lists from pools that share one node subnet, so that one node can satisfy them all.
+func genRangesRoutable(t *rapid.T, topo Topo, k int) [][]string {
+	ns := topo.Pools[rapid.IntRange(0, len(topo.Pools)-1).Draw(t, "nsPool")].NodeSubnets[0]
+	var pools []PoolT
 	for _, p := range topo.Pools {
+		for _, s := range p.NodeSubnets {
+			if s == ns {
+				pools = append(pools, p)
+				break
+			}
+		}
+	}
+	return genRangesFrom(t, pools, k)
+}
+
+func genRangesFrom(t *rapid.T, pools []PoolT, k int) [][]string {
+	var spans [][2]uint32
+	for _, p := range pools {
 		spans = append(spans, p.Ranges...)
 	}
 	var out [][]string
